@@ -113,6 +113,17 @@ CHECKS['C04'] = ('proof', 'Selector + per-client lambdas as a state machine tran
                  'operation compared with the Gallina model (extracted) and with the holder specification.',
                  'partial: C++ meaning of the selector text validated by running. Known finding K3 reproduced on every run. Repaired defects F5, F7, F9.', '§5 C04')
 
+CHECKS['C11'] = ('proof', 'Interleaving semantics of N client threads with arbitrary finite programs of claim/use/release plus the dispatcher thread, and of '
+                 'MutexWrapped with any number of threads: for every schedule - mutual exclusion of the protected section (clients and dispatcher), the selection '
+                 'is written only under the lock, an out-event goes to the client selected at that moment or to nobody, some thread can always step while a '
+                 'client is unfinished (no deadlock); MutexWrapped: at most one thread has access, others block, reset and scope exit both unlock, no double '
+                 'unlock; "the granted client receives the out-events until it releases, whatever others do" is REFUTED by three schedules (K3, K3\', K4) '
+                 '(Properties/C11.v). Leg B: model-generated schedules replayed on real threads against the compiled shell (client threads held in dzn::shell and '
+                 'at the selector\'s ILog callbacks) and compared observation by observation; MutexWrapped histories on real threads with a try_lock probe; '
+                 'free-running stress of both under ThreadSanitizer with a watchdog.',
+                 'partial: the atomic-step semantics is transcribed from the emitted C++ and validated by replay; data-race freedom at the C++ memory-model level '
+                 'and deadlock freedom of the binary are ThreadSanitizer/watchdog evidence, not theorems. Known findings K3, K4 reproduced on every run.', '§5 C11')
+
 NOT_YET = {
 }
 
